@@ -54,6 +54,15 @@ func init() {
 		}
 		// warm-up transactions (never failed), so that the failing commit has a history
 		faultWorkload(s, rng, 0, sc.Params["warm"])
+		if sc.Params["switch"] == 1 {
+			// reopen with the freelist-sync option flipped: the file's state (freelist page present or
+			// not) and the session's option now disagree until the first commit of the session
+			o := s.Opts
+			o.NoFreelistSync = !o.NoFreelistSync
+			if err := s.Reopen(&o); err != nil {
+				panic(err)
+			}
+		}
 		base := s.T.IOCount()
 		if k := sc.Params["k"]; k > 0 {
 			s.T.FailAt = base + k
@@ -104,6 +113,13 @@ func countFaultIOs(sc Scenario) int {
 		return 0
 	}
 	faultWorkload(s, rng, 0, sc.Params["warm"])
+	if sc.Params["switch"] == 1 {
+		o := s.Opts
+		o.NoFreelistSync = !o.NoFreelistSync
+		if err := s.Reopen(&o); err != nil {
+			return 0
+		}
+	}
 	base := t.IOCount()
 	faultWorkload(s, rng, sc.Params["readers"], sc.Params["txs"])
 	n := t.IOCount() - base
@@ -127,7 +143,7 @@ func faultScenarios(prefix string, workloads int, seed int64, readers bool) []Sc
 			nr = 1 + wl%2
 		}
 		base := Scenario{Kind: "fault", Seed: seed*2741 + int64(wl), Opts: o, Profile: []string{"half", "quarter", "page", "small"}[wl%4], Observe: true,
-			Params: map[string]int{"warm": 2 + wl%3, "txs": 2, "readers": nr, "k": 0, "short": 0}}
+			Params: map[string]int{"warm": 2 + wl%3, "txs": 2, "readers": nr, "k": 0, "short": 0, "switch": map[bool]int{true: 1, false: 0}[wl%3 == 1]}}
 		n := countFaultIOs(base)
 		for k := 1; k <= n; k++ {
 			sc := base
